@@ -7,7 +7,8 @@ From Coq Require Import Permutation.
 From SC Require Import Base.Prelude Router.Registry Router.RegistryProofs Router.RouterGet Router.RouterGetProofs
   Router.RouterCb Router.RouterCbProofs Router.RegistryW Router.RegistryWProofs
   Router.Pump Router.PumpProofs Router.NameDefault Router.NameDefaultProofs Router.NameTree Router.NameTreeProofs Router.Table Router.TableProofs Gen.Routers
-  Router.Route Router.RouteW Router.RouteWProofs Router.C12Judge Router.C12JudgeProofs.
+  Router.Route Router.RouteW Router.RouteWProofs Router.C12Judge Router.C12JudgeProofs Router.C12SchedProofs
+  Router.RouterCbW Router.RouterCbWProofs.
 
 (* The registry is a map: for every operation sequence (Add/Remove/Has/Get with fallback and
    factory) results equal those of a plain functional map, whose final contents, change log and
@@ -155,6 +156,63 @@ Theorem C12_perm_eqb_sound : forall a b, perm_eqb a b = true -> Permutation a b.
 Proof. exact perm_eqb_sound. Qed.
 Print Assumptions C12_perm_eqb_sound.
 
+(* ... and complete: perm_eqb decides multiset equality of change lists *)
+Theorem C12_perm_eqb_complete : forall a b, perm_eqb a b = true <-> Permutation a b.
+Proof. exact perm_eqb_iff. Qed.
+Print Assumptions C12_perm_eqb_complete.
+
+(* ---- per-call fallback/factory outcomes UNDER CONCURRENCY (Router/RouterCbW.v): every Get thread
+   carries what ITS fallback call and ITS factory call return this time (nil,nil / nil,err /
+   client+err / client,nil), the router is built from any subset of WithFallback / WithFactory;
+   callbacks are steps of their own ---- *)
+
+(* callbacks report exactly the transitions, for every schedule of any Get/Add/Remove threads with
+   any per-call outcomes *)
+Theorem C12_percall_callbacks_are_transitions : forall o ths s0 sched,
+  let G := cgrunW o ths sched (cginitW s0 ths) in
+  Permutation (slog (cst G)) (ccbs G ++ pending (cpcs G)) /\
+  (call_done G = true -> Permutation (slog (cst G)) (ccbs G)).
+Proof. exact callbacks_are_transitions_W. Qed.
+Print Assumptions C12_percall_callbacks_are_transitions.
+
+(* concurrent first Gets of one name whose fallback and factory calls may each end differently
+   (a factory that returns client+error to one caller and a client to another, fails once and
+   succeeds later, ...), EVERY schedule: at most one client is ever committed and exactly one Auto
+   change logged iff one is; no other name changes; the committed client is what some thread's own
+   factory call returned after its own fallback missed; every result is justified: the caller's own
+   fallback client, or THE committed client, or NotFound when both of its own calls yielded nothing
+   (even if another caller has committed meanwhile: Get does not look again); all calls returned =>
+   the callbacks are the transitions in order *)
+Theorem C12_percall_single_commit : forall o n ths s0,
+  (forall k, In k ths -> exists fbo fao, k = WTGet n fbo fao) -> find n (sreg s0) = None ->
+  forall sched,
+  let G := cgrunW o ths sched (cginitW s0 ths) in
+  let commit := find n (sreg (cst G)) in
+  slog (cst G) = slog s0 ++ auto_entry n commit /\
+  (forall k, String.eqb k n = false -> find k (sreg (cst G)) = find k (sreg s0)) /\
+  (forall c, commit = Some c ->
+     exists i fbo fao, nth_error ths i = Some (WTGet n fbo fao) /\
+       fst (invoke_w (w_fb o) fbo) = None /\ fst (invoke_w (w_fac o) fao) = Some c) /\
+  (forall i r fbo fao, nth_error (cpcs G) i = Some (CDone r) -> nth_error ths i = Some (WTGet n fbo fao) ->
+     (exists c, r = RGet (Got c) /\ fst (invoke_w (w_fb o) fbo) = Some c) \/
+     (exists c, r = RGet (Got c) /\ commit = Some c) \/
+     (r = RGet (NotFound n) /\ fst (invoke_w (w_fb o) fbo) = None /\ fst (invoke_w (w_fac o) fao) = None)) /\
+  (call_done G = true -> ccbs G = slog (cst G)).
+Proof. exact single_commit_W. Qed.
+Print Assumptions C12_percall_single_commit.
+
+(* two callers whose own fallbacks missed and who both got a client got the SAME client, the one the registry holds *)
+Theorem C12_percall_same_client : forall o n ths s0,
+  (forall k, In k ths -> exists fbo fao, k = WTGet n fbo fao) -> find n (sreg s0) = None ->
+  forall sched i j ci cj fboi faoi fboj faoj,
+  let G := cgrunW o ths sched (cginitW s0 ths) in
+  nth_error ths i = Some (WTGet n fboi faoi) -> nth_error ths j = Some (WTGet n fboj faoj) ->
+  nth_error (cpcs G) i = Some (CDone (RGet (Got ci))) -> nth_error (cpcs G) j = Some (CDone (RGet (Got cj))) ->
+  fst (invoke_w (w_fb o) fboi) = None -> fst (invoke_w (w_fb o) fboj) = None ->
+  ci = cj /\ find n (sreg (cst G)) = Some ci.
+Proof. exact no_fresh_client_after_commit_W. Qed.
+Print Assumptions C12_percall_same_client.
+
 (* ---- per-call fallback/factory outcomes and option subsets (Router/RegistryW.v) ---- *)
 
 (* for every operation sequence on a router built from ANY subset of WithFallback / WithFactory /
@@ -280,18 +338,21 @@ Theorem C12_judge_sound_routew : forall o fe ae ops,
 Proof. exact judge_sound_routew. Qed.
 Print Assumptions C12_judge_sound_routew.
 
-(* the judge: agreement with the model implies the property predicate (boolean equalities reflect
-   equality), under the guard (sequence/session cases: every message type has at most one field
-   called "name"; every other kind: no hypothesis), for router histories (both kinds),
-   option-subset registries, single requests, request sequences and stream sessions.
-   Missing: KSched/KSchedCb, where the predicate is proved of the model's own runs only
-   (C12_single_factory_commit, C12_callbacks_are_transitions). *)
-Theorem C12_judge_agrees_ok_partial : forall c,
-  match c with KSched _ _ _ _ _ _ _ _ | KSchedCb _ _ _ _ _ _ _ _ => False | _ => True end ->
-  agrees c = true -> C12_guard c = true -> C12_ok c = true.
+(* THE JUDGE IS SOUND, every case kind: whenever the observation of the code agrees with the model
+   and the case is inside the guard, the property predicate holds of the observation (boolean
+   equalities reflect equality).  Guard: sequence/session cases -- every message type has at most
+   one field called "name"; schedule cases -- identities are non-nil (factory identities start
+   above 0, no Add(name, nil)); every other kind: no hypothesis.  For the two schedule kinds this
+   rests on: completeness of perm_eqb / remove_all, the model-run theorems (single commit; nothing
+   changes without a factory; erasure of callback steps; callbacks = transitions), positivity of
+   factory identities along every run, and an invariant tying the callbacks delivered so far to
+   what every finished call returned (Router/C12SchedProofs.v). *)
+Theorem C12_judge_sound : forall c, C12_guard c = true -> agrees c = true -> C12_ok c = true.
 Proof.
-  intros c Hc Ha Hg. destruct c; try contradiction.
+  intros c Hg Ha. destruct c.
   - apply judge_agrees_ok_hist; assumption.
+  - apply judge_agrees_ok_sched; assumption.
+  - apply judge_agrees_ok_schedcb; assumption.
   - apply judge_agrees_ok_regw; assumption.
   - apply judge_agrees_ok_routew; assumption.
   - apply judge_agrees_ok_default; assumption.
@@ -299,7 +360,29 @@ Proof.
   - apply judge_agrees_ok_seq; assumption.
   - apply judge_agrees_ok_session; assumption.
 Qed.
-Print Assumptions C12_judge_agrees_ok_partial.
+Print Assumptions C12_judge_sound.
+
+(* the schedule guard and the hypotheses are satisfiable by the interesting inputs: a callback
+   schedule in which two Adds report in the opposite order of their commits, and three racing Gets *)
+Example C12_judge_sched_nonvacuous :
+  judge (KSchedCb (mkCfg [] []) 1000 [] [TAdd "n" 1; TAdd "n" 2]%string [0; 1; 1; 0]%nat
+           [RClient 0; RClient 1] [mkChange "n" 1 2 false; mkChange "n" 0 1 false] [("n"%string, 2)]) = 0
+  /\ judge (KSched (mkCfg [] ["n"%string]) 1000 [] [TGet "n"; TGet "n"; TGet "n"]%string [0;1;2;0;1;2;2;1;0]%nat
+             [RGet (Got 1002); RGet (Got 1002); RGet (Got 1002)] [mkChange "n" 0 1002 true] [("n"%string, 1002)]) = 0
+  /\ judge (KSched (mkCfg [] ["n"%string]) 0 [] [TGet "n"]%string [0;0;0]%nat
+             [RGet (Got 0)] [mkChange "n" 0 0 true] [("n"%string, 0)]) = 1.
+Proof. vm_compute. repeat split. Qed.
+
+(* "no change is reported twice" cannot be demanded outright: three overlapping Add(n, 5) commit --
+   and so report -- {n, 5 -> 5} twice.  cb_ok therefore demands distinct callbacks only when the
+   transitions are distinct (its first version demanded them outright and was NOT implied by
+   agreement with the model: found while proving C12_judge_sound) *)
+Theorem C12_cb_report_twice_needs_commit_twice :
+  let ths := [TAdd "n" 5; TAdd "n" 5; TAdd "n" 5]%string in
+  let G := cgrun (mkCfg [] []) ths [0; 0; 1; 1; 2; 2]%nat (cginit (init 1000) ths) in
+  call_done G = true /\ nodup_changes (ccbs G) = false /\ ccbs G = slog (cst G).
+Proof. exact cb_report_twice_needs_commit_twice. Qed.
+Print Assumptions C12_cb_report_twice_needs_commit_twice.
 
 (* the guard is satisfiable by a non-trivial input (two types sharing a short name, name at
    different numbers), and an OK verdict means the guard held *)
@@ -467,10 +550,10 @@ Print Assumptions C12_all_routed_v0_refuted.
    exactly one call to the client it holds under the name with the caller's request, transcript
    conditions without the loop, NotFound touching nobody, log = the plain map's log) holds of the
    model on EVERY history of registry operations and RPCs on a generated router *)
-Theorem C12_judge_sound : forall g first ops,
+Theorem C12_judge_sound_hist : forall g first ops,
   C12_ok (KHist g first ops (snd (hrun g (init first) ops)) (slog (fst (hrun g (init first) ops)))) = true.
 Proof. exact judge_sound_hist. Qed.
-Print Assumptions C12_judge_sound.
+Print Assumptions C12_judge_sound_hist.
 
 Theorem C12_stream_ok_sound : forall c k, stream_ok c k (pump c k) = true.
 Proof. exact stream_ok_sound. Qed.
@@ -503,3 +586,10 @@ Example C12_nonvacuous_table : (20 <? zlen table) = true /\
   existsb (fun e => existsb dm_sstream (e_methods e)) table = true /\
   existsb (fun e => existsb (fun d => negb (dm_sstream d)) (e_methods e)) table = true.
 Proof. exact table_nonvacuous. Qed.
+Example C12_nonvacuous_percall_race :
+  let o := mkW true true true in
+  let ths := [WTGet "n" FNil (FBoth 7); WTGet "n" FNil (FOk 8); WTGet "n" FErr (FOk 9)]%string in
+  let G := cgrunW o ths [0;1;2;0;1;2;2;1;0;2;1]%nat (cginitW (init 1) ths) in
+  cpcs G = [CDone (RGet (NotFound "n")); CDone (RGet (Got 9)); CDone (RGet (Got 9))]%string
+  /\ slog (cst G) = [mkChange "n" 0 9 true] /\ ccbs G = [mkChange "n" 0 9 true].
+Proof. vm_compute. repeat split. Qed.
